@@ -25,7 +25,7 @@ def main(tier, seed, only=None):
     extra = {"smt": smt}
     rc_k, results = vdriver.check_kani("C20", tier, seed, only=only, extra_results=extra)
     # merge verdicts
-    ev_path = os.path.join(vdriver.EVID_DIR, "C20.json")
+    ev_path = os.path.join(vdriver.evid_dir(), "C20.json")
     ev = json.load(open(ev_path))
     cov = ev["coverage"]
     ob = smt.get("obligations", 0)
